@@ -1,5 +1,7 @@
 CONSTANTS
   Tags = {1, 2, 3, 5}
+  Names = {101, 102}
+  NameBase = 100
   MaxSaves = 6
   AutoRule = "max+1"
 SPECIFICATION Spec
